@@ -1,7 +1,7 @@
 (* Proofs/MiniPyConflicts.v — the regenerated source of the ConflictResolver (Gen/FactsConflictsSrc.v: get_conflict,
    _fix_conflict_auto, ... dumped from simple_parsing/conflicts.py on every run) against the hand model Model/OptStr.v.
    The FieldWrapper objects live in ONE store (key = position in the flat list = the model's identity); a reference is a key. *)
-From SPV Require Import Base.Str Model.OptStr Gen.FactsConflicts.
+From SPV Require Import Base.Str Model.OptStr Gen.FactsConflicts Proofs.OptStrProofs Proofs.ConflictsProofs Proofs.ConflictsGroup.
 From SPV Require Import Model.MiniPy Gen.FactsOptStrSrc Gen.FactsConflictsSrc Proofs.MiniPyLemmas Proofs.MiniPyOptStr.
 
 Ltac ops := cbn [op_attr op_getattr op_hasattr op_vars op_getitem op_dictget op_copy op_keys op_values op_items op_zip op_splitdest
@@ -61,17 +61,10 @@ Qed.
 
 (* ---------- get_conflict ---------- *)
 (* the dict `conflicts`: option string -> references that hold it, in insertion order (defaultdict(list)) *)
-Definition gdict := list (string * list nat).
-Fixpoint dict_append (o : string) (i : nat) (g : gdict) : gdict :=
-  match g with
-  | [] => [(o, [i])]
-  | (o', l) :: t => if String.eqb o' o then (o', (l ++ [i])%list) :: t else (o', l) :: dict_append o i t
-  end.
 Definition enc_gdict (g : gdict) : list (val * val) := map (fun p => (VS (fst p), VL (map VN (snd p)))) g.
 Definition add_field (c : cfg) (fs : list fw) (g : gdict) (i : nat) : gdict :=
   fold_left (fun g o => dict_append o i g) (option_strings c (nth_fw fs i)) g.
 Definition group_all (c : cfg) (fs : list fw) (ids : list nat) : gdict := fold_left (add_field c fs) ids [].
-Definition first_multi (g : gdict) : option (string * list nat) := find (fun p => Nat.ltb 1 (List.length (snd p))) g.
 (* what ConflictResolver.get_conflict returns on the references ids *)
 Definition get_conflict_fn (c : cfg) (fs : list fw) (ids : list nat) : option (string * list nat) := first_multi (group_all c fs ids).
 Definition enc_conflict (o : option (string * list nat)) : val :=
